@@ -16,4 +16,5 @@ Extraction "../ocaml/c16/model.ml"
   doc_ser_value_ordered_am doc_typeck_value_ordered_am doc_deser_value_ordered_am
   doc_ser_value_snc doc_typeck_value_snc doc_deser_value_snc
   doc_ser_row_ordered_gen doc_typeck_row_snc doc_deser_row_snc nodupb rt_okb
+  ordered_am_drops doc_ser_value_ordered_strict doc_typeck_value_ordered_strict doc_deser_value_ordered_strict
   enc_signed dec_signed. (* the last two only pull the Z datatype needed by ocaml/common/conv.ml *)
